@@ -5,3 +5,12 @@ HARNESSES = {
     'Transcode': dict(split={'op': 16}, quick=dict(params={'L': 2}), thorough=dict(params={'L': 3}, job_timeout_s=3000)),
     'MidPath': dict(split={'verb': 12}),
 }
+
+BOUNDS = {
+    'PerCall': 'every Destination method x {low, high} resolution; one float operand fully arbitrary (quick: first or last position, thorough: any position), the other operands distinct concrete short-form values; adj, incr, flags, colour of every kind symbolic',
+    'Runs': 'same-verb runs of length 1,2,15,16,17,31,32,33,40 for every drawing verb (concrete short-form numbers)',
+    'Mixed': 'sequences of K freely chosen drawing verbs (quick 2, thorough 3)',
+    'Transcode': 'magic, no metadata, L arbitrary instruction bytes (quick 2, thorough 3) through decode -> Encoder(high resolution) -> decode',
+    'MidPath': 'streams ending inside a path after a run of 1..2 operations of every run-forming verb',
+}
+OUTSIDE = 'programs longer than the stated sequences as a whole (composition with C03 per-instruction grammar, C08 number lemmas and C10 protocol induction is a paper argument); custom metadata is C09/C13'
